@@ -63,8 +63,19 @@ def plan(tier, seed):
     names = corpus.names()
     mem = [(n, -1, 0) for n in names] + [(n, o, rng.randrange(12)) for n in names for o in MEM_OPS]
     if tier == 'quick':
-        mem = rng.sample(mem, 14)
+        mem = rng.sample(mem, 10)
     cases += [{'memcheck': m} for m in mem]
+    # ... and every statement of the golden programs as a one-statement program (c03 pool I), in batches; only statements that assemble
+    # without any message are judged
+    from . import c03
+    stm = list(c03.pool_i())
+    rng.shuffle(stm)
+    if tier == 'quick':
+        stm = stm[:160]
+    cases += [{'memstmt': stm[i:i + 40]} for i in range(0, len(stm), 40)]
+    only = os.environ.get('VERIF_C17_ONLY')       # development aid
+    if only:
+        cases = [c for c in cases if any(only in k for k in c)]
     return cases
 
 
@@ -86,7 +97,8 @@ def sha(b):
     return None if b is None else hashlib.sha256(b).hexdigest()[:16]
 
 
-VG_FRAME = re.compile(r'^==\d+==\s+(?:at|by) 0x[0-9A-F]+: (\S+) \(in [^)]*/(?:asl|p2bin|p2hex)\)', re.M)
+VG_FRAME = re.compile(r'^==\d+==\s+(?:at|by) 0x[0-9A-F]+: (\w+) \((?:in [^)]*/(?:asl|p2bin|p2hex)|(\w+\.c):\d+)\)', re.M)
+VG_SKIP = ('fflush', 'fwrite', 'write', 'fclose', 'memcpy', 'NewRecord', 'CloseFile', 'FlushBuffer', 'WriteBytes', 'WriteCode')
 
 
 def run_memcheck(case, ctx):
@@ -123,10 +135,19 @@ def run_memcheck(case, ctx):
         return
     err = r.err.decode('latin-1')
     out.obs['memcheck_runs'] += 1
+    if r.rc in (2, 3) and not os.path.exists(ctx.path('x.p')):
+        # the program was rejected: no code file; what the listing shows for a rejected statement is not part of this property
+        out.obs['memcheck_runs_of_rejected_programs_not_judged'] += 1
+        return
     if r.rc == 77 or 'uninitialised' in err:
         kind = 'write-to-file' if 'Syscall param write' in err else ('decision' if 'Conditional jump' in err else 'use')
-        m = VG_FRAME.search(err)
-        out.violate('uninitialised-%s:%s' % (kind, m.group(1) if m else '?'), '%s: %s' % (tag, err[:900].replace('\n', ' | ')))
+        fn = '?'
+        for m in VG_FRAME.finditer(err):
+            if m.group(1) not in VG_SKIP and not m.group(1).startswith('_IO_') and (m.group(2) or '').split('.')[0] not in ('fileops', 'iofflush', 'iofwrite', 'genops'):
+                fn = '%s@%s' % (m.group(1), m.group(2) or 'asl')
+                break
+        vg = err[err.find('=='):] if '==' in err else err
+        out.violate('uninitialised-%s:%s' % (kind, fn), '%s: %s' % (tag, vg[:1500].replace('\n', ' | ')))
         return
     if r.rc not in (0, 2, 3, 96, 97):
         out.inconc('memcheck run ended with status %s' % r.rc)
@@ -135,9 +156,42 @@ def run_memcheck(case, ctx):
     out.sig = ('memcheck', pname, op, off)
 
 
+def run_memstmt(case, ctx):
+    from . import c03, c18
+    out = ctx.out
+    for member in case['memstmt']:
+        _, pname, cpu, li = member
+        line = c18.vocabulary(corpus.Prog(pname))[cpu][li]
+        ctx.write('s.asm', '\tcpu\t%s\n%s\n' % (cpu, line))
+        r0 = ctx.run('asl', ['s.asm', '-o', 'x.p', '-q'], env={'ASL_VERIF_MAX_LINES': '100000', 'ASL_VERIF_MAX_PASSES': '30'}, timeout=40, retry=False)
+        if r0.rc != 0 or r0.err.strip() or r0.out.strip():
+            out.obs['memcheck_statements_not_clean_alone'] += 1
+            continue
+        r = ctx.run('valgrind', ['-q', '--error-exitcode=77', '--leak-check=no', ctx.bins['val:asl'], 's.asm', '-o', 'x.p', '-L', '-q'],
+                    env={'ASL_VERIF_MAX_LINES': '100000', 'ASL_VERIF_MAX_PASSES': '30'}, timeout=300, retry=False)
+        if r.timed_out:
+            out.inconc('timeout: memcheck')
+            continue
+        err = r.err.decode('latin-1')
+        out.obs['memcheck_statement_runs'] += 1
+        if r.rc == 77 or 'uninitialised' in err:
+            kind = 'write-to-file' if 'Syscall param write' in err else ('decision' if 'Conditional jump' in err else 'use')
+            fn = '?'
+            for m in VG_FRAME.finditer(err):
+                if m.group(1) not in VG_SKIP and not m.group(1).startswith('_IO_') and (m.group(2) or '').split('.')[0] not in ('fileops', 'iofflush', 'iofwrite', 'genops'):
+                    fn = '%s@%s' % (m.group(1), m.group(2) or 'asl')
+                    break
+            out.violate('uninitialised-%s:%s' % (kind, fn), 'cpu %s / %r: %s' % (cpu, line.strip(), err[:1200].replace('\n', ' | ')))
+        else:
+            out.sigs.add('memstmt:%s:%s:%d' % (pname, cpu, li))
+    out.nontrivial = True
+
+
 def run_case(case, ctx):
     if 'memcheck' in case:
         return run_memcheck(case, ctx)
+    if 'memstmt' in case:
+        return run_memstmt(case, ctx)
     out = ctx.out
     rng = ctx.rng
     src_dir = ctx.path('s')
